@@ -3,20 +3,24 @@
 Breadth-first search over operation sequences on the REAL openfilter.filter_runtime.frame.Frame, exhaustive to depth 3
 (quick) / 4 (thorough), from 12 start states (writable / read-only x GRAY / BGR / RGB x 1x1 / 2x3).  A state is the
 history that reaches it and is rebuilt by replaying that history on fresh objects; states are deduplicated on a
-canonical abstraction (see World.canon).  Alphabet, simplest first (21 operations, each applied to every target):
+canonical abstraction (see World.canon).  Alphabet, simplest first (24 operations, each applied to every target):
 
-  constructors   F(img) F(img,frm) from_jpg from_jpg_now F(frm) F(frm,data) F(frm,fmt)
+  constructors   F(img) F(img,frm) from_jpg from_jpg_now from_jpg_mv from_jpg_mv_now F(frm) F(frm,data) F(frm,fmt)
+                 (from_jpg* hand over `bytes`; from_jpg_mv* hand over a memoryview into a caller-owned receive buffer)
   accessors      copy rw ro rgb bgr gray rw_rgb rw_bgr ro_rgb ro_bgr
   reads          .image .jpg pickle
   poke           write a fresh, distinct pixel pattern through a live writable array
+  scribble       the caller reuses a receive buffer a frame was built from (from_jpg_mv*): overwrites it with another JPEG
 
 Frame targets: the root frame and the two most recent distinct result frames.  Poke targets: every writable array
-reachable from those frames.
+reachable from those frames.  Scribble targets: every not yet reused receive buffer behind a reachable frame.
 
 Reference model (class World): for every array the user can reach (MArr) the pixels it must show *now*, a symbolic term
 saying where they came from, whether it was born read-only and whether it is the decode of a particular jpg; for every
-frame (MFrm) its array and format label.  Only `poke` changes pixels in the model.  The model is boring on purpose:
-conversions are numpy channel reversal and cv2.cvtColor of the source's current model pixels, nothing is cached.
+frame (MFrm) its array and format label.  Only `poke` changes pixels in the model (a frame is built from the BYTES it is
+handed - Frame.from_blob snapshots every blob that is not bytes / bytearray - so `scribble` changes nothing).  The model
+is boring on purpose: conversions are numpy channel reversal and cv2.cvtColor of the source's current model pixels,
+nothing is cached.
 
 Oracle (the statement of C10, nothing more):
   * every accessor result has the requested format and shows conv(current pixels of its source)   [stale-* / wrong-pixels-*]
@@ -41,17 +45,20 @@ SHAPES  = [(1, 1), (2, 3)]
 FMTS    = ['BGR', 'RGB', 'GRAY']
 STARTS  = [(fmt, h, w, wr) for wr in (True, False) for fmt in FMTS for (h, w) in SHAPES]
 
-CONSTRUCT = ['F(img)', 'F(img,frm)', 'from_jpg', 'from_jpg_now', 'F(frm)', 'F(frm,data)', 'F(frm,fmt)']
+CONSTRUCT = ['F(img)', 'F(img,frm)', 'from_jpg', 'from_jpg_now', 'from_jpg_mv', 'from_jpg_mv_now', 'F(frm)', 'F(frm,data)', 'F(frm,fmt)']
+FROM_JPG  = {'from_jpg': (False, True), 'from_jpg_now': (False, False), 'from_jpg_mv': (True, True), 'from_jpg_mv_now': (True, False)}  # op -> (memoryview?, dims?)
 ACCESS    = ['copy', 'rw', 'ro', 'rgb', 'bgr', 'gray', 'rw_rgb', 'rw_bgr', 'ro_rgb', 'ro_bgr']
 READS     = ['.image', '.jpg', 'pickle']
 FRAME_OPS = CONSTRUCT + ACCESS + READS
-ALPHABET  = FRAME_OPS + ['poke']
+ALPHABET  = FRAME_OPS + ['poke', 'scribble']
 
 TARGET_FMT = {'rgb': 'RGB', 'bgr': 'BGR', 'gray': 'GRAY', 'rw_rgb': 'RGB', 'rw_bgr': 'BGR', 'ro_rgb': 'RGB', 'ro_bgr': 'BGR'}
 WANT_W     = {'rw': True, 'rw_rgb': True, 'rw_bgr': True, 'ro': False, 'ro_rgb': False, 'ro_bgr': False}
 CACHES     = ('_Frame__ro_rgb', '_Frame__ro_bgr', '_Frame__ro_gray')
 JPG_TOL    = 4.0        # mean abs error; measured worst case on the patterns below is 0.34, two patterns differ by >= 37
 SLOTS      = ['root', 'last', 'prev']
+BUF_SLACK  = 64         # a receive buffer is this much longer than the message in it
+FLAT       = 250        # the JPEG a reused buffer is overwritten with shows this value everywhere (patterns stay below it)
 
 
 # ---- reference conversions -----------------------------------------------------------------------------------------------
@@ -115,6 +122,7 @@ class MArr:
         self.term    = term                                   # symbolic provenance (for the canonical state only)
         self.born_ro = real is None or not real.flags.writeable
         self.src_jpg = src_jpg                                # bytes of the jpg these pixels are the decode of, or None
+        self.buf     = None                                   # the caller's receive buffer the frame was built from, until it is reused
 
     @property
     def writable(self):
@@ -201,10 +209,14 @@ class World:
     def live_writable(self):
         return [a for a in self.live_arrays() if a.writable]
 
+    def live_buffered(self):
+        return [a for a in self.live_arrays() if a.buf is not None]
+
     def actions(self):
         n = len(self.slots())
 
-        return [[op, t] for op in FRAME_OPS for t in range(n)] + [['poke', i] for i in range(len(self.live_writable()))]
+        return [[op, t] for op in FRAME_OPS for t in range(n)] + [['poke', i] for i in range(len(self.live_writable()))] + \
+               [['scribble', i] for i in range(len(self.live_buffered()))]
 
     # ---- one step ----
 
@@ -222,6 +234,17 @@ class World:
             a.pix        = pix
             a.term       = ('p', self.npoke)
             a.src_jpg    = None
+
+        elif op == 'scribble':                               # the model does not change: the frame was built from the bytes
+            a         = self.live_buffered()[tgt]
+            buf       = a.buf
+            a.buf     = None
+            ok, other = cv2.imencode('.jpg', np.full(a.pix.shape, FLAT, np.uint8))
+            other     = bytes(other)
+
+            assert ok and len(other) <= len(buf), (len(other), len(buf))
+
+            buf[:] = other + bytes(len(buf) - len(other))
 
         else:
             s = self.slots()[tgt]
@@ -304,13 +327,24 @@ class World:
 
             self.result(op, s, r, F, a.pix, a.term, None, False, a.src_jpg, viols)
 
-        elif op in ('from_jpg', 'from_jpg_now'):
-            jpg  = bytes(self.read_jpg(s, viols))
-            h, w = a.pix.shape[:2]
-            r    = Frame.from_jpg(jpg, None, h, w, F) if op == 'from_jpg' else Frame.from_jpg(jpg, None, None, None, F)
+        elif op in FROM_JPG:
+            mv, dims = FROM_JPG[op]
+            jpg      = bytes(self.read_jpg(s, viols))
+            h, w     = a.pix.shape[:2]
+            blob     = jpg
+
+            if mv:                                           # the message sits in a longer buffer the caller owns and will reuse
+                buf            = bytearray(len(jpg) + BUF_SLACK)
+                buf[:len(jpg)] = jpg
+                blob           = memoryview(buf)[:len(jpg)]
+
+            r    = Frame.from_jpg(blob, None, h, w, F) if dims else Frame.from_jpg(blob, None, None, None, F)
             same = a.src_jpg == jpg
 
             self.result(op, s, r, F, a.pix if same else decode(jpg, F), a.term if same else ('dec', a.term), False, False, jpg, viols)
+
+            if mv and (m := self.frames.get(id(r))) is not None:
+                m.arr.buf = buf
 
         elif op in ('F(frm)', 'F(frm,data)', 'F(frm,fmt)'):
             F2 = F if op != 'F(frm,fmt)' else {'RGB': 'BGR', 'BGR': 'RGB', 'GRAY': 'GRAY'}[F]   # a relabel, not a conversion
@@ -478,7 +512,7 @@ class World:
                 tuple((name[8:], fidx[id(c)]) for name in CACHES if isinstance(c := getattr(f, name, None), self.Frame)),
             ))
 
-        adesc = [(a.pix.shape, a.writable, a.born_ro, ren(a.term)) for a in arrs]
+        adesc = [(a.pix.shape, a.writable, a.born_ro, ren(a.term), a.buf is not None) for a in arrs]
         reals = [a.real for a in arrs]
         alias = tuple(sorted((i, j) for i in range(len(reals)) for j in range(i + 1, len(reals))
                              if reals[i] is not None and reals[j] is not None and np.shares_memory(reals[i], reals[j])))
@@ -509,7 +543,7 @@ def show(start, hist):
     fmt, h, w, wr = start
 
     return (f'start = {"writable" if wr else "read-only"} {fmt} {w}x{h}; ops = ' +
-            ', '.join(f'{op}@arr{t}' if op == 'poke' else f'{op}@{SLOTS[t]}' for op, t in hist))
+            ', '.join(f'{op}@arr{t}' if op == 'poke' else f'{op}@buf{t}' if op == 'scribble' else f'{op}@{SLOTS[t]}' for op, t in hist))
 
 
 def _expand(item):
@@ -533,16 +567,20 @@ def run(rep):
     depth  = 3 if rep.tier == 'quick' else 4
     starts = [s for s in STARTS if not rep.only or rep.only in f'{"rw" if s[3] else "ro"}-{s[0]}-{s[1]}x{s[2]}']
 
-    rep.set('rule', f'a case = start state + operation sequence of length <= {depth} over the 21-op alphabet x targets, executed on the '
+    rep.set('rule', f'a case = start state + operation sequence of length <= {depth} over the {len(ALPHABET)}-op alphabet x targets, executed on the '
             'real Frame class next to the reference model; breadth-first, complete to that depth modulo the canonical '
             'abstraction (formats, writability, jpg/cache flags, aliasing partition, symbolic pixel provenance with poke '
-            'numbers renamed); a state is distinct by that abstraction; non-trivial = at least two reachable arrays or a '
-            'reachable array that has been poked; states in which the oracle fired are reported and not expanded further')
+            'numbers renamed, receive buffer not yet reused); a state is distinct by that abstraction; non-trivial = at least two '
+            'reachable arrays or a reachable array that has been poked; states in which the oracle fired are reported and not '
+            'expanded further')
     rep.assumption('read-only start images own their memory (a read-only view of a buffer somebody else writes to is outside the '
                    'contract); Frame(frame, None, fmt) is used as a relabel between RGB and BGR only; image-less frames are not part '
                    'of the alphabet')
     rep.assumption(f'JPEG tolerance: mean abs error <= {JPG_TOL} on smooth patterns whose versions differ by >= 37 per pixel; '
                    'GRAY -> RGB/BGR reference is cv2.COLOR_GRAY2BGR (luminance replicated)')
+    rep.assumption('encoded images are handed to from_jpg as bytes or as a memoryview into a caller-owned bytearray that the caller '
+                   'later overwrites (scribble); a bytearray handed over as such is documented input that from_blob keeps as it is, '
+                   'its later reuse is outside the alphabet')
     rep.assumption('targets are the root frame and the two most recent distinct result frames; older results are dropped (their '
                    'arrays stay under the changed-behind-back / ro-became-writable watch until the sequence ends)')
     rep.part('domains', start_states=len(starts), alphabet=len(ALPHABET), depth=depth, frame_targets=len(SLOTS))
